@@ -204,8 +204,11 @@ func (u *Unit) addOblNamed(st *State, kind, label, desc string, pos token.Pos, g
 	pc := u.ctx.Define("pc", st.pc)
 	o := &Obligation{Name: name, Kind: kind, Unit: u.name, Pos: u.posString(pos), Desc: desc, Hyp: pc, Goal: goal, Mark: u.ctx.Mark(), ctx: u.ctx, unit: u}
 	u.obls = append(u.obls, o)
-	// after asserting, the fact may be assumed downstream
-	u.assume(st, goal)
+	// after asserting, the fact may be assumed downstream (a structural obligation that
+	// is plainly false is not: assuming it would make everything after it vacuous)
+	if goal.S != "false" {
+		u.assume(st, goal)
+	}
 	return o
 }
 
